@@ -217,6 +217,11 @@ func customTraceExportHandler(
 	if apicfg.HasKeyIDs() {
 		keyID = traceServer.router.getKeyID(ri.ApiKey)
 	}
+	// AcceptOnlyListedKeys applies to the key the client sent, before SendKey/SendKeyMode
+	// replace it (as in the HTTP handlers); afterwards only the replaced key is left.
+	if err := apicfg.IsAccepted(ri.ApiKey, keyID); err != nil {
+		return nil, status.Error(codes.Unauthenticated, err.Error())
+	}
 	keyToUse, err := apicfg.GetReplaceKey(ri.ApiKey, keyID)
 	if err != nil {
 		return nil, status.Error(codes.Unauthenticated, err.Error())
